@@ -197,6 +197,8 @@ pub struct Outcome<N> {
     pub extra_items: Vec<Item<N>>,
     /// dimension of the state of any item differs from the problem's
     pub dim_mismatch: bool,
+    /// collect_vec() on the remainder after the end (opts.collect_after): Some((items, is_err, derivative calls made))
+    pub collect_after: Option<(usize, bool, u64)>,
 }
 
 impl<N: Clone> Outcome<N> {
@@ -236,6 +238,9 @@ pub struct Opts {
     pub collect_vec: bool,
     /// Euler is configured through with_maximum_dt(dt_max) only
     pub mode: DimMode,
+    /// after iteration ended (None or an Err item) and the extra next() calls, consume the SAME
+    /// iterator with collect_vec(): a fused iterator gives Ok(empty) without calling the derivative
+    pub collect_after: bool,
     /// order in which the builder calls are made (a valid configuration must build to the same
     /// solver whatever the order): 0 = min, max, tol, t0, t1, ic, derivative; other values permute
     pub order: u8,
@@ -243,7 +248,7 @@ pub struct Opts {
 
 impl Default for Opts {
     fn default() -> Self {
-        Opts { budget: 5_000_000, fail_at: None, max_items: 200_000, extra_next: 0, collect_vec: false, mode: DimMode::Dynamic, order: 0 }
+        Opts { budget: 5_000_000, fail_at: None, max_items: 200_000, extra_next: 0, collect_vec: false, mode: DimMode::Dynamic, collect_after: false, order: 0 }
     }
 }
 
@@ -251,6 +256,11 @@ impl Default for Opts {
 pub trait Rhs<N>: Sync {
     fn dim(&self) -> usize;
     fn eval(&self, t: f64, y: &[N], out: &mut [N]);
+    /// bound on |df/dt| where it is not O(|f|) (narrow forcing features); scales the allowance for
+    /// the one-ulp uncertainty of reconstructed stage times
+    fn t_lip(&self) -> f64 {
+        0.0
+    }
 }
 
 type Boxed<'a, N, D> = Box<dyn FnMut(f64, &[N], &mut ()) -> Result<BVector<N, D>, UserError> + 'a>;
@@ -285,9 +295,9 @@ where
     DefaultAllocator: Allocator<N, D>,
     S: IVPSolver<'a, D, Field = N, RealField = f64, UserData = (), Error = IVPError>,
 {
-    let mut out = Outcome { build_err: None, items: vec![], truncated: false, panic: None, budget_hit: false, calls: 0, extra_some: 0, extra_calls: 0, extra_items: vec![], dim_mismatch: false };
+    let mut out = Outcome { build_err: None, items: vec![], truncated: false, panic: None, budget_hit: false, calls: 0, extra_some: 0, extra_calls: 0, extra_items: vec![], dim_mismatch: false, collect_after: None };
     probe::begin(opts.budget);
-    let res = probe::guard(|| -> Result<(Vec<Item<N>>, bool, usize, u64, bool, Vec<Item<N>>), (String, String)> {
+    let res = probe::guard(|| -> Result<(Vec<Item<N>>, bool, usize, u64, bool, Vec<Item<N>>, Option<(usize, bool, u64)>), (String, String)> {
         let b = match opts.mode {
             DimMode::Static => S::new(),
             DimMode::Dynamic => S::new_dyn(n),
@@ -341,7 +351,7 @@ where
                 }
                 Err(e) => items.push(Item::Err(classify(e))),
             }
-            return Ok((items, false, 0, 0, dim_mismatch, vec![]));
+            return Ok((items, false, 0, 0, dim_mismatch, vec![], None));
         }
         let mut ended = false;
         while items.len() < opts.max_items {
@@ -385,13 +395,23 @@ where
                 }
             }
         }
-        Ok((items, truncated, extra_some, calls.get() - before, dim_mismatch, extra_items))
+        let extra_calls = calls.get() - before;
+        let mut after = None;
+        if ended && opts.collect_after {
+            let b2 = calls.get();
+            after = Some(match it.collect_vec() {
+                Ok(v) => (v.len(), false, calls.get() - b2),
+                Err(_) => (0, true, calls.get() - b2),
+            });
+        }
+        Ok((items, truncated, extra_some, extra_calls, dim_mismatch, extra_items, after))
     });
     out.calls = calls.get();
     out.budget_hit = probe::exceeded();
     match res {
-        Guarded::Ok(Ok((items, truncated, extra_some, extra_calls, dm, extra_items))) => {
+        Guarded::Ok(Ok((items, truncated, extra_some, extra_calls, dm, extra_items, after))) => {
             out.extra_items = extra_items;
+            out.collect_after = after;
             out.items = items;
             out.truncated = truncated;
             out.extra_some = extra_some;
